@@ -18,7 +18,7 @@ template <int S> struct Runner {
   static const int M = 2 * S;
   const double THR = thr_of(S);
   Ctx &c; const std::string &unit;
-  Sp reused; bool toggle = false;   // a long-lived object updated with every problem of this unit (route 5)
+  Sp reused; bool toggle = false; int which = 0;   // a long-lived object updated with every problem of this unit (route 5)
   Runner(Ctx &c_, const std::string &u) : c(c_), unit(u) {}
 
   void fail(const std::string &what, const Prob &p, const std::string &detail) {
@@ -60,6 +60,15 @@ template <int S> struct Runner {
         (void)reused.getTrajectory().evaluate(reused.getStartTime(), 1); }
       if (toggle) reused.update(q.T, q.P, q.t0, q.bc); else reused.update(tp, q.P, q.bc);
       toggle = !toggle;
+      // the FIRST access after the update goes through each of the four trajectory accessors in turn (rotating with the problem), before any
+      // other accessor is called: every one of them must already show the new knots and polynomials (seeded change C01-m8: lazy re-publication
+      // with one accessor left out)
+      { which = (which + 1) % 4; ++c.st.comparisons; bool okf;
+        if (which == 0) { auto cp = reused.getPPolyCopy(); okf = cp.getBreakpoints() == A.getTrajectory().getBreakpoints() && mat_bits_equal(cp.getCoefficients(), A.getTrajectory().getCoefficients()); }
+        else if (which == 1) { auto cp = reused.getTrajectoryCopy(); okf = cp.getBreakpoints() == A.getTrajectory().getBreakpoints() && mat_bits_equal(cp.getCoefficients(), A.getTrajectory().getCoefficients()); }
+        else if (which == 2) { const auto &r = reused.getPPoly(); okf = r.getBreakpoints() == A.getTrajectory().getBreakpoints() && mat_bits_equal(r.getCoefficients(), A.getTrajectory().getCoefficients()); }
+        else { const auto &r = reused.getTrajectory(); okf = r.getBreakpoints() == A.getTrajectory().getBreakpoints() && mat_bits_equal(r.getCoefficients(), A.getTrajectory().getCoefficients()); }
+        if (!okf) fail("route-reused-object", p, fmt("the first trajectory access after update(), through %s, does not show the new knots / polynomials", which == 0 ? "getPPolyCopy()" : which == 1 ? "getTrajectoryCopy()" : which == 2 ? "getPPoly()" : "getTrajectory()")); }
       ++c.st.comparisons;
       bool ok = mat_bits_equal(reused.getTrajectory().getCoefficients(), A.getTrajectory().getCoefficients()) && reused.getTrajectory().getBreakpoints() == A.getTrajectory().getBreakpoints() && reused.getCumulativeTimes() == A.getCumulativeTimes() && reused.getStartTime() == A.getStartTime() && reused.getEndTime() == A.getEndTime() && reused.getDuration() == A.getDuration();
       const std::vector<double> &cm = A.getCumulativeTimes();
